@@ -146,6 +146,12 @@ def check_collect(ctx, model, crate, p, ledger, vault=False, rule="C07-F3"):
         ctx.ob(rule, "%s|recipient" % p, ok_rec, "transfer recipient: %s (must be CONFIG.fee_collector_addr)" % sorted(map(repr, rec)), v.where(xb))
         src = arg_origins(v, xb, xt, 0)
         ok_src = bool(src) and all(o.kind == "load" and o.a.endswith(ledger) for o in src)
+        if not ok_src and src and all(o.kind == "agg" for o in src):
+            # `Asset { info: entry.info.clone(), amount: entry.amount }` is the entry too: decided field by field
+            parts = {f: arg_origins(v, xb, xt, 0, proj=(f,)) for f in ("info", "amount")}
+            ok_src = all(os_ and all(o.kind == "load" and o.a.endswith(ledger) and tuple(o.proj[-1:]) == (f,) for o in os_)
+                         for f, os_ in parts.items())
+            src = set().union(*parts.values())
         ctx.ob(rule, "%s|transfers-the-ledger-entry" % p, ok_src, "transferred asset: %s (must be the loaded %s entry)" % (sorted(map(repr, src)), ledger.split("::")[-1]), v.where(xb))
         tainted, sinks, ret = forward_flow(v, [xt["dest"]["l"]])
         ctx.ob(rule, "%s|transfer-attached" % p, bool(sinks), "transfer message reaches Response::add_messages: %s" % bool(sinks), v.where(xb))
